@@ -19,6 +19,14 @@ V04(w) == { C("add", IF w = 1 THEN "37" ELSE IF w = 2 THEN "38" ELSE "39", "0", 
             C("prepend", IF w = 1 THEN "3c313e" ELSE IF w = 2 THEN "3c323e" ELSE "3c333e", "0", "10"),
             C("incr", "", "0", "11"), C("decr", "", "0", "12"), C("incr", "", "1", "13"),
             C("append", IF w = 1 THEN "3c313e" ELSE IF w = 2 THEN "3c323e" ELSE "3c333e", "1", "14") }
+(* C08: deletes and flushes (immediate / delayed) against everything that rewrites a record *)
+Fl(delay, opq) == [C("flush", "", "0", opq) EXCEPT !.opc = 8, !.ttl = delay, !.ttls = NatToStr(delay), !.bl = IF delay > 0 THEN 4 ELSE 0]
+V08d(w) == { C("delete", "", "0", "5"), C("delete", "", "1", "6"), Fl(0, "17"), Fl(2, "18") }
+V08r(w) == { C("get", "", "0", "1"), C("set", IF w = 1 THEN "37" ELSE "38", "0", "2"), Cttl("set", IF w = 1 THEN "37" ELSE "38", "0", "15", 3),
+             C("add", IF w = 1 THEN "37" ELSE "38", "0", "7"), C("replace", IF w = 1 THEN "37" ELSE "38", "0", "8"),
+             C("append", IF w = 1 THEN "3c313e" ELSE "3c323e", "0", "9"), C("prepend", IF w = 1 THEN "3c313e" ELSE "3c323e", "0", "10"),
+             C("incr", "", "0", "11"), C("set", IF w = 1 THEN "37" ELSE "38", "1", "3") }
+Progs08_2 == {[w \in {1, 2} |-> IF w = 1 THEN a ELSE b] : a \in V08d(1), b \in V08d(2) \cup V08r(2)}
 Progs03_2 == {[w \in {1, 2} |-> IF w = 1 THEN a ELSE b] : a \in V03(1), b \in V03(2)}
 Progs04_2 == {[w \in {1, 2} |-> IF w = 1 THEN a ELSE b] : a \in V03(1) \cup V04(1), b \in V04(2)}
 Progs03_3 == {[w \in {1, 2, 3} |-> IF w = 1 THEN a ELSE IF w = 2 THEN b ELSE c] : a \in V03(1), b \in V03(2), c \in V03(3)}
